@@ -97,7 +97,18 @@ func (c *udpMuxedConn) readPacket(
 			if pkt == c.bufHead {
 				c.bufHead = nil
 			}
+			more := c.bufTail != nil && c.readWaiting.Load() > 0
 			c.mu.Unlock()
+
+			if more {
+				// Several readers can share this connection (one per wrapper). A wake-up is a
+				// single token: packets that were queued while it was pending produced none of
+				// their own, so pass it on while packets remain and a reader is waiting.
+				select {
+				case c.notify <- struct{}{}:
+				default:
+				}
+			}
 
 			if len(b) < len(pkt.buf) {
 				err = io.ErrShortBuffer
